@@ -614,7 +614,28 @@ func c06Merge(c *Ctx) {
 	}
 	result := p.Vals[0]
 	rc, ok := result.(TCall)
-	if !ok || rc.Fun == nil || rc.Fun.Name() != "Clone" || len(rc.Args) != 0 {
+	if !ok {
+		// Clone's body spelled out: self.copy().(*object) (Clone ≡ copy: C08.R4)
+		inner := result
+		for {
+			switch x := inner.(type) {
+			case TConv:
+				inner = x.X
+				continue
+			case TAssert:
+				inner = x.X
+				continue
+			case TProj:
+				inner = x.X
+				continue
+			}
+			break
+		}
+		if cc, isCall := inner.(TCall); isCall && cc.Fun != nil && cc.Fun.Name() == "copy" && len(cc.Args) == 0 {
+			rc, ok = cc, true
+		}
+	}
+	if !ok || rc.Fun == nil || (rc.Fun.Name() != "Clone" && rc.Fun.Name() != "copy") || len(rc.Args) != 0 {
 		ob.Fail("the result is not a clone")
 		return
 	}
@@ -626,7 +647,7 @@ func c06Merge(c *Ctx) {
 	var it *TCall
 	for _, s := range p.Effects() {
 		if s.Kind == "call" && s.Call != nil && s.Call.Fun != nil {
-			if s.Call.Fun.Name() == "Clone" {
+			if s.Call.Fun.Name() == "Clone" || (s.Call.Fun.Name() == "copy" && len(s.Call.Args) == 0) {
 				continue
 			}
 			if it != nil {
@@ -692,7 +713,21 @@ func c06Pluck(c *Ctx) {
 		ob.Undecided("body outside the path vocabulary: %s", why)
 		return
 	}
-	p, loop, msg := singleLoopPath(paths)
+	// an absent key's panic raised inside the loop (Get's body spelled out) is judged with the loop body below
+	var mainPaths []*Path
+	for _, q := range paths {
+		li := -1
+		for k, st := range q.Steps {
+			if st.Kind == "loop" && st.Loop != nil {
+				li = k
+			}
+		}
+		if li >= 0 && q.End == "panic" && inLoopExit(q, li) {
+			continue
+		}
+		mainPaths = append(mainPaths, q)
+	}
+	p, loop, msg := singleLoopPath(mainPaths)
 	if msg != "" {
 		ob.Fail("Pluck is not: result := empty object; one loop over the requested keys; return result (%s)", msg)
 		return
@@ -731,6 +766,51 @@ func c06Pluck(c *Ctx) {
 		ob.Fail("unexpected effect outside the loop: %s", c.stepStr(s))
 		return
 	}
+	getInlined := false
+	if len(loop.Iter) == 2 {
+		// Get's body spelled out: `f, ok := spine[key]; if !ok { panic }` — the absent key still panics, before anything is set
+		var presence Term
+		var okPath *Path
+		for _, q := range loop.Iter {
+			cs := q.Conds()
+			if len(cs) != 1 {
+				presence = nil
+				break
+			}
+			pr, isPr := cs[0].T.(TProj)
+			ix, isIx := pr.X.(TIndex)
+			if !isPr || pr.K != 1 || !isIx || !v.isRecvSpine(ix.X) {
+				presence = nil
+				break
+			}
+			if presence != nil && !sameTerm(presence, cs[0].T) {
+				presence = nil
+				break
+			}
+			presence = cs[0].T
+			switch {
+			case !cs[0].Truth && q.End == "panic" && len(q.Effects()) == 0:
+			case cs[0].Truth && (q.End == "fall" || q.End == "continue"):
+				okPath = q
+			default:
+				presence = nil
+			}
+			if presence == nil {
+				break
+			}
+		}
+		if presence != nil && okPath != nil {
+			q := clonePath(okPath)
+			q.Steps = nil
+			for _, st := range okPath.Steps {
+				if st.Kind != "cond" {
+					q.Steps = append(q.Steps, st)
+				}
+			}
+			loop = &LoopRec{ID: loop.ID, Node: loop.Node, Range: loop.Range, For: loop.For, Over: loop.Over, Key: loop.Key, Value: loop.Value, Iter: []*Path{q}, CondT: loop.CondT, Init: loop.Init, Post: loop.Post, HeadEnv: loop.HeadEnv}
+			getInlined = true
+		}
+	}
 	if len(loop.Iter) != 1 {
 		ob.Fail("the Set is conditional: an absent key is silently skipped (or stored as a nil field) instead of panicking")
 		return
@@ -765,6 +845,14 @@ func c06Pluck(c *Ctx) {
 		ob.Fail("%s", msg)
 		return
 	}
+	if getInlined {
+		// the stored value: getVal() of the field found under the key
+		e, isVal := v.valueOf(args[1])
+		pr, isPr := e.(TProj)
+		ix, isIx := pr.X.(TIndex)
+		ob.Check(isVal && isPr && pr.K == 0 && isIx && v.isRecvSpine(ix.X) && sameTerm(ix.I, args[0]), "for every requested key: the field under the key is looked up (absent => panic before anything is set) and result.Set(key, its getVal()) — Get's body spelled out; exactly the requested keys", "the stored value is not getVal() of the field found under the key")
+		return
+	}
 	gname, gargs, ok := v.selfCall(args[1])
 	ob.Check(ok && gname == "Get" && len(gargs) == 1 && sameTerm(gargs[0], args[0]), "for every requested key: result.Set(key, self.Get(key)) unconditionally (absent key => Get's panic); exactly the requested keys", "the stored value is not self.Get(key)")
 }
@@ -797,7 +885,8 @@ func c06Views(c *Ctx) {
 		}
 		n++
 		ob := c.Ob("C06.R5", "(*object)."+spec.name, fd.Pos())
-		paths, why := c.runPaths(fd)
+		// a view filled through a sibling visitor of the same receiver, called statically, is followed into it
+		paths, why := c.runPathsWith(fd, func(x *SX) { x.InlineStaticSelf = true })
 		v := c.view(fd)
 		msg := why
 		if msg == "" {
